@@ -444,6 +444,27 @@ def mon_trace(case, lines):
     return _first(w, 'trace') or _first(w, 'mutex')
 
 
-MONITORS = {'fault': mon_fault, 'twice': mon_twice, 'exclusive': mon_exclusive, 'order': mon_order, 'stranded': mon_stranded,
+def mon_try_blocks(case, lines):
+    """C08: try_lock_shared / try_lock_shared_for / _until and modify_detach / modify_async never wait for other
+    holders: inside such a call no *blocking* acquisition of the outer mutex may appear"""
+    outer = set()
+    for l in lines:
+        if len(l) == 5 and l[0] >= 0 and l[1] in (K['TRYLOCK'], K['TRYLOCK_FOR'], K['TRYLOCK_SH'], K['TRYLOCK_SH_FOR'], K['LOCK_SH']):
+            outer.add(l[2])
+    cur = {}
+    for i, l in enumerate(lines):
+        if len(l) != 5 or l[0] < 0:
+            continue
+        t, k, o, v, m = l
+        if k == K['INVOKE']:
+            cur[t] = v
+        elif k in (K['RET'], K['CATCH']):
+            cur.pop(t, None)
+        elif k in (K['LOCK'], K['LOCK_SH']) and o in outer and cur.get(t) in (TRY_SH, TRY_SH_FOR, TRY_SH_UNTIL, DETACH, ASYNC):
+            return 'thread %d: blocking acquisition of the wrapper mutex (trace line %d) inside the non-blocking operation %d' % (t, i, cur[t])
+    return None
+
+
+MONITORS = {'try_blocks': mon_try_blocks, 'fault': mon_fault, 'twice': mon_twice, 'exclusive': mon_exclusive, 'order': mon_order, 'stranded': mon_stranded,
             'lost': mon_lost, 'payload': mon_payload, 'future': mon_future, 'exn': mon_exn, 'lock_leaked': mon_lock_leaked,
             'deadlock': mon_deadlock, 'seq_cst': mon_seq_cst, 'trace': mon_trace}
